@@ -80,6 +80,9 @@ def main(argv=None) -> int:
     import warnings
 
     warnings.filterwarnings("ignore")
+    import logging
+
+    logging.disable(logging.CRITICAL)  # the table sampler logs an error before raising its documented ValueError
     t0 = time.time()
     try:
         mod = import_module(f"props.{prop_id.lower()}")
